@@ -19,12 +19,45 @@ import (
 	"time"
 )
 
-type vLogImpl struct {
-	t    testing.TB
-	dir  string
-	l    *commitLog
-	opts Options
+type vLiveReader struct {
+	r           *Reader
+	next        int64
+	uncommitted bool
 }
+
+type vLogImpl struct {
+	t       testing.TB
+	dir     string
+	l       *commitLog
+	opts    Options
+	readers map[string]*vLiveReader
+	hook    *vHookLogger
+}
+
+// vHookLogger is the commit log's logger: it runs `fire` once, at the first debug message
+// that marks the start of a clean ("Cleaning log …" of the retention cleaner, or "Compacting
+// log …"), i.e. right after Clean() took its snapshot of the segment list.
+type vHookLogger struct {
+	fire func()
+}
+
+func (h *vHookLogger) Debugf(f string, a ...interface{}) {
+	if h.fire != nil && (strings.HasPrefix(f, "Cleaning log") || strings.HasPrefix(f, "Compacting log")) {
+		fn := h.fire
+		h.fire = nil
+		fn()
+	}
+}
+func (h *vHookLogger) Fatalf(string, ...interface{}) {}
+func (h *vHookLogger) Errorf(string, ...interface{}) {}
+func (h *vHookLogger) Infof(string, ...interface{})  {}
+func (h *vHookLogger) Warnf(string, ...interface{})  {}
+func (h *vHookLogger) Debug(...interface{})          {}
+func (h *vHookLogger) Warn(...interface{})           {}
+func (h *vHookLogger) Info(...interface{})           {}
+func (h *vHookLogger) Fatal(...interface{})          {}
+func (h *vHookLogger) Silent(bool)                   {}
+func (h *vHookLogger) Prefix(string)                 {}
 
 func (v *vLogImpl) close() {
 	if v.l != nil {
@@ -297,8 +330,10 @@ func (v *vLogImpl) exec(line string) (out string) {
 		}
 		v.dir = dir
 		max, _ := strconv.ParseInt(f[1], 10, 64)
+		v.hook = &vHookLogger{}
+		v.readers = map[string]*vLiveReader{}
 		v.opts = Options{Path: dir, MaxSegmentBytes: max, ConcurrencyControl: f[2] == "1",
-			HWCheckpointInterval: time.Hour, CleanerInterval: time.Hour}
+			HWCheckpointInterval: time.Hour, CleanerInterval: time.Hour, Logger: v.hook}
 		for _, kv := range f[3:] {
 			p := strings.SplitN(kv, "=", 2)
 			n, _ := strconv.ParseInt(p[1], 10, 64)
@@ -366,6 +401,7 @@ func (v *vLogImpl) exec(line string) (out string) {
 			return "err " + vErrEnum(err)
 		}
 		v.l = nil
+		v.readers = map[string]*vLiveReader{} // readers end with the log they were attached to
 		v.open()
 		return "ok | " + v.state()
 	case "readonly":
